@@ -66,15 +66,46 @@ def build(repo=None):
                 good = isinstance(v, ast.Call) and ast.unparse(v.func) in ctor_names and not v.args and not v.keywords
         ob(f"root:{r}-is-thread-local", good)
     # no other module-level mutable state is introduced
+    # (a name bound once to an immutable value -- a constant, a tuple of constants, a type alias such as tuple[dict[str, Any], ...] -- is not state)
+    TYPE_CTORS = {"tuple", "dict", "list", "set", "frozenset", "type", "Optional", "Union", "Callable", "Any", "Dict", "List", "Tuple", "Set", "FrozenSet", "Type", "Literal", "Sequence", "Mapping", "Iterable"}
+    BUILTIN_TYPES = {"int", "str", "bool", "float", "complex", "bytes", "object", "None", "Any"} | TYPE_CTORS
+
+    def type_expr(v):
+        if isinstance(v, ast.Constant):
+            return True
+        if isinstance(v, ast.Name):
+            return v.id in BUILTIN_TYPES
+        if isinstance(v, ast.Attribute):
+            return isinstance(v.value, ast.Name) and v.value.id in ("typing", "t", "collections", "abc") and v.attr in BUILTIN_TYPES
+        if isinstance(v, (ast.Tuple, ast.List)):
+            return all(type_expr(x) for x in v.elts)  # (a list inside a subscript, e.g. Callable[[int], str], is an argument of the alias, not a stored list)
+        if isinstance(v, ast.Subscript):
+            return type_expr(v.value) and not isinstance(v.value, ast.Constant) and type_expr(v.slice)
+        if isinstance(v, ast.BinOp) and isinstance(v.op, ast.BitOr):
+            return type_expr(v.left) and type_expr(v.right)
+        return False
+
+    def immutable_expr(v):
+        if isinstance(v, ast.Constant):
+            return True
+        if isinstance(v, ast.Tuple):
+            return all(immutable_expr(x) for x in v.elts)
+        return not isinstance(v, (ast.List, ast.Tuple)) and type_expr(v)
+
     allowed_globals = set(ROOTS)
     extra = []
+    bound = {}
     for n in mod.tree.body:
         if isinstance(n, (ast.Assign, ast.AnnAssign, ast.AugAssign)):
             tg = n.targets if isinstance(n, ast.Assign) else [n.target]
             for t in tg:
                 nm = getattr(t, "id", None)
                 if nm not in allowed_globals:
-                    extra.append(nm or ast.unparse(t))
+                    bound.setdefault(nm or ast.unparse(t), []).append(n)
+    for nm, ns in bound.items():
+        if not (len(ns) == 1 and isinstance(ns[0], (ast.Assign, ast.AnnAssign)) and ns[0].value is not None and immutable_expr(ns[0].value)
+                and not any(isinstance(g, (ast.Global, ast.Nonlocal)) and nm in g.names for g in ast.walk(mod.tree))):
+            extra.append(nm)
     ob("root:no-other-module-level-state", not extra, extra=z3.StringVal(",".join(map(str, extra))))
 
     def engine_for(fname, st, root, extra_globals=None):
